@@ -147,6 +147,31 @@ def run(res, a):
         add("append", shared, rr, wire + rb(rng, rng.randrange(1, 30)), wire, ch, "garbage after the stream")
     core.run_correspondence(res, "frame", cases, me)
     res.extra["exhaustive_bitflips_for_small_streams"] = True
+    # ---- pass 2b: frame counters far from zero: a frame sealed at counter n is accepted at counter n only — not at
+    # n + 2^32, n - 2^32, n + 1, n - 1 (replay of frames recorded earlier / later) ----
+    rec, k2 = [], 0
+    for base in [0, 5, 2 ** 32 - 1, 2 ** 32, 2 ** 33 + 7, 2 ** 63 + 1]:
+        shared = rb(rng, 32)
+        msgs = [rb(rng, rng.choice([3, 40, 1024, 1100])) for _ in range(rng.randrange(1, 3))]
+        rec.append((shared, base, msgs))
+    p2 = [{"id": "sealc%d" % i, "line": "sealc %s cli %d %s" % (s_.hex(), b_, " ".join(m.hex() for m in ms)), "kind": "seal"}
+          for i, (s_, b_, ms) in enumerate(rec)]
+    go2, mo2 = core.run_correspondence(res, "frame", p2, P1, corr_name="correspondence Gallina sealing <-> x/crypto reference framer at large counters")
+    cc2 = []
+    for i, (shared, base, msgs) in enumerate(rec):
+        obs = go2.get("sealc%d" % i, "")
+        if obs != mo2.get("sealc%d" % i, "") or not obs:
+            continue
+        wire = b"".join(bytes.fromhex(t.split("=", 1)[1]) for t in obs.split(" ") if "=" in t)
+        ch = chunks_of(msgs)
+        for delta in [0, 1, -1, 2 ** 32, -2 ** 32, 2 ** 33, 2 ** 63]:
+            at = (base + delta) % 2 ** 64
+            if base + delta < 0:
+                continue
+            cc2.append({"id": "ctr%d" % len(cc2), "kind": "counter", "line": "decc %s srv %d %s" % (shared.hex(), at, wire.hex()),
+                        "stream": wire.hex() if delta == 0 else "", "meta": {"honest": wire.hex() if delta == 0 else "ff", "chunks": [c.hex() for c in ch] if delta == 0 else [],
+                                                                                 "note": "stream sealed from counter %d received at counter %d" % (base, at)}})
+    core.run_correspondence(res, "frame", cc2, Counter, corr_name="correspondence model<->code, family frame (receive counters far from zero)")
     # ---- pass 3: the same alterations through hap.Connection.Read (the accessory's read path), where frames that
     # follow the altered one may already be buffered; the caller keeps reading after an error ----
     ccases = []
@@ -189,6 +214,31 @@ def run(res, a):
                                    "line": "cr %s %s %s" % (shared.hex(), evs, ",".join([str(bsz)] * nreads)), "stream": stream.hex(),
                                    "meta": {"honest": wire.hex(), "chunks": [c.hex() for c in ch], "note": note + ", " + segname + ", buffer %d" % bsz}})
     core.run_correspondence(res, "conn", ccases, ConnLevel, corr_name="correspondence model<->code, family conn (hap.Connection.Read over altered streams)")
+
+
+class Counter:
+    """a stream is accepted exactly at the counter it was sealed at"""
+    nontrivial = staticmethod(lambda c: True)
+    outcome_class = staticmethod(lambda c, obs: "counter/" + (obs.split("st=")[-1] if "st=" in obs else obs[:8]))
+    same = staticmethod(lambda c, g, m: g == m or g == "skip")
+    classify = staticmethod(lambda c, obs, why: None)
+
+    @staticmethod
+    def oracle(c, obs):
+        if obs == "skip":
+            return None
+        if obs.startswith("panic") or obs.startswith("DRIVER-DIED") or obs == "NO-OUTPUT":
+            return "no panic; observed " + obs[:80]
+        f = dict(t.split("=", 1) for t in obs.split(" ") if "=" in t)
+        honest = c["meta"]["chunks"]
+        if honest:
+            if f.get("st") != "clean" or f.get("out") != "".join(honest):
+                return "an unmodified stream was not released in full at the counter it was sealed at (%s)" % c["meta"]["note"]
+        elif f.get("out"):
+            return "plaintext was released for frames sealed at another counter (%s)" % c["meta"]["note"]
+        elif f.get("st") != "err":
+            return "frames sealed at another counter were not reported as an error (%s)" % c["meta"]["note"]
+        return None
 
 
 class ConnLevel:
